@@ -53,7 +53,10 @@ RULE_ADDED = (
               "s certifier's subject name (the signature decides). "
               ' '
               'Round 14: roots whose PEM body is unpadded and ends in a letter of the END CERTI'
-              'FICATE line (12% of the chains, all chain-building checks). ')
+              'FICATE line (12% of the chains, all chain-building checks). '
+              ' '
+              'Round 15: attestation key off the curve with a chord-constructed (r, r) quote si'
+              'gnature. ')
 RULE = RULE + " " + RULE_ADDED.strip()
 ASSUMPTIONS = [
     "oracle: pv/oracle/certv2.py; X.509 parsing itself is shared (cryptography), signature "
